@@ -64,20 +64,36 @@ def _setup(case):
         raise Discard()
     z2 = z1
     lat2, lon2 = cv.grid2geo(z1, e2, n2, hemi, ell)[:2]
-    if not (-180.0 + 1e-6 <= lon2 <= 180.0 - 1e-6) or not (-180.0 + 1e-6 <= lon1 <= 180.0 - 1e-6):
+    if not (-180.0 + 1e-6 <= lon1 <= 180.0 - 1e-6):
         raise Discard()      # the quantifier excludes grid points whose longitude falls outside [-180, 180]
-    if case["adj"]:
-        # re-express point 2 in the neighbouring zone (towards the side it lies on)
-        z2 = z1 + (1 if lon2 >= _cm(z1) else -1)
-        if not (1 <= z2 <= 60):
+    if not case["adj"]:
+        if not (-180.0 + 1e-6 <= lon2 <= 180.0 - 1e-6):
             raise Discard()
-        if not (-180.0 <= lon2 <= 180.0):
+    else:
+        # re-express point 2 in the neighbouring zone (towards the side it lies on); zones 60 and 1 are neighbours across the
+        # antimeridian, where point 2 is given with its longitude brought back into [-180, 180]
+        z2 = (z1 - 1 + (1 if lon2 >= _cm(z1) else -1)) % 60 + 1
+        lon2 = (lon2 + 180.0) % 360.0 - 180.0
+        if not (-180.0 + 1e-6 <= lon2 <= 180.0 - 1e-6):
             raise Discard()
         g = cv.geo2grid(lat2, lon2, z2, ell)
         e2, n2 = g[2], g[3]
         if g[0].lower() != hemi:
             raise Discard()
+        own = cv.grid2geo(z2, e2, n2, hemi, ell)[1]
+        if not (-180.0 + 1e-6 <= own <= 180.0 - 1e-6):
+            raise Discard()      # given in zone z2 the point's longitude leaves [-180, 180]: excluded by the quantifier
     return cv, ell, z1, e1, n1, z2, e2, n2, hemi
+
+
+def _hargs(case, hemi, ell):
+    """Trailing (hemisphere, ellipsoid) arguments in the spelling / call form of the case: lower case, the documented
+    'South' / 'North', upper case, or left to the defaults where the defaults are what the case asks for."""
+    sp = case.get("hspell", "lower")
+    word = {"lower": hemi, "Cap": hemi.capitalize(), "UPPER": hemi.upper(), "default": hemi.capitalize()}[sp]
+    if sp == "default" and case["ell"] == "grs80":
+        return ((), {}) if hemi == "south" else ((), {"hemisphere": word})
+    return (word, ell), {}
 
 
 def _angdiff(a, b):
@@ -87,7 +103,8 @@ def _angdiff(a, b):
 def check_inverse_definition(case):
     gd = repo.mod("geodepy.geodesy")
     cv, ell, z1, e1, n1, z2, e2, n2, hemi = _setup(case)
-    got = gd.vincinv_utm(z1, e1, n1, z2, e2, n2, hemi, ell)
+    ha, hk = _hargs(case, hemi, ell)
+    got = gd.vincinv_utm(z1, e1, n1, z2, e2, n2, *ha, **hk)
     if not (isinstance(got, tuple) and len(got) == 4):
         raise Fail("vincinv_utm did not return (grid distance, bearing 1->2, bearing 2->1, line scale factor)", observed=repr(got))
     gdist, b12, b21, lsf = got
@@ -100,7 +117,7 @@ def check_inverse_definition(case):
     if not (_angdiff(b12, a12 + p1[3]) <= 1e-9 and _angdiff(b21, a21 + p2[3]) <= 1e-9):
         raise Fail("grid bearings are not the geodetic azimuths plus the grid convergence at each end (each in its own zone)",
                    expected={"b12": a12 + p1[3], "b21": a21 + p2[3]}, observed={"b12": b12, "b21": b21})
-    lsf2 = gd.line_sf(z1, e1, n1, z2, e2, n2, hemi, ell)
+    lsf2 = gd.line_sf(z1, e1, n1, z2, e2, n2, *ha, **hk)
     if lsf2 != lsf:
         raise Fail("vincinv_utm's line scale factor is not line_sf of the same arguments", expected=lsf2, observed=lsf)
     # independent sanity of the grid bearing: plane bearing of the chord in zone 1 differs only by the arc-to-chord
@@ -114,22 +131,29 @@ def check_inverse_definition(case):
 def check_direct_inverts(case):
     gd = repo.mod("geodepy.geodesy")
     cv, ell, z1, e1, n1, z2, e2, n2, hemi = _setup(case)
-    gdist, b12, b21, lsf = gd.vincinv_utm(z1, e1, n1, z2, e2, n2, hemi, ell)
+    ha, hk = _hargs(case, hemi, ell)
+    gdist, b12, b21, lsf = gd.vincinv_utm(z1, e1, n1, z2, e2, n2, *ha, **hk)
     if gdist == 0:
         raise Discard()
-    got = gd.vincdir_utm(z1, e1, n1, b12, gdist, hemi, ell)
-    if not (isinstance(got, tuple) and len(got) == 5):
-        raise Fail("vincdir_utm did not return (zone, east, north, bearing 2->1, line scale factor)", observed=repr(got))
-    zz, ee, nn, rb, lsf_d = got
-    if zz != z1:
-        raise Fail("vincdir_utm did not report the second point in the first point's zone", expected=z1, observed=zz)
-    # point 2 in zone 1
+    # point 2 in zone 1 (where the direct computation reports it); the quantifier excludes grid points whose longitude
+    # falls outside [-180, 180], which is what a point across the antimeridian is when expressed in zone 1
     if z2 == z1:
         w_e, w_n = e2, n2
     else:
         p2 = cv.grid2geo(z2, e2, n2, hemi, ell)
         g = cv.geo2grid(p2[0], p2[1], z1, ell)
         w_e, w_n = g[2], g[3]
+    if not (-180.0 + 1e-6 <= cv.grid2geo(z1, w_e, w_n, hemi, ell)[1] <= 180.0 - 1e-6):
+        raise Discard()
+    brg = b12
+    if case.get("bkind", "float") != "float":
+        brg = S.angle_obj(case["bkind"], b12 % 360.0)      # the bearing as an angle object (documented for vincdir_utm)
+    got = gd.vincdir_utm(z1, e1, n1, brg, gdist, *ha, **hk)
+    if not (isinstance(got, tuple) and len(got) == 5):
+        raise Fail("vincdir_utm did not return (zone, east, north, bearing 2->1, line scale factor)", observed=repr(got))
+    zz, ee, nn, rb, lsf_d = got
+    if zz != z1:
+        raise Fail("vincdir_utm did not report the second point in the first point's zone", expected=z1, observed=zz)
     d = math.hypot(ee - w_e, nn - w_n)
     metric("direct_closure_m", d)
     target(d, "direct_closure")
@@ -147,7 +171,8 @@ def check_lsf_bounds(case):
     gd = repo.mod("geodepy.geodesy")
     cv, ell, z1, e1, n1, z2, e2, n2, hemi = _setup(case)
     a, invf = A_INVF[case["ell"]]
-    lsf = gd.line_sf(z1, e1, n1, z2, e2, n2, hemi, ell)
+    ha, hk = _hargs(case, hemi, ell)
+    lsf = gd.line_sf(z1, e1, n1, z2, e2, n2, *ha, **hk)
     if z2 != z1:
         p2 = cv.grid2geo(z2, e2, n2, hemi, ell)
         g = cv.geo2grid(p2[0], p2[1], z1, ell)
@@ -183,16 +208,30 @@ def lines(draw, ell_strategy=None):
     sel = draw(st.integers(0, 4))
     if sel == 0:      # near the central meridian (lines that cross it)
         dlon = (draw(_unit) * 2 - 1) * 0.2
-    else:
+    elif sel in (1, 2):
         dlon = (draw(_unit) * 2 - 1) * 3.5
+    else:
+        # anywhere in the 100 000 .. 900 000 m easting range, which is wider than a zone away from the equator
+        dmax = math.degrees(400000.0 / (0.9996 * 6378137.0 * max(math.cos(math.radians(lat)), 0.05)))
+        dlon = (draw(_unit) * 2 - 1) * min(dmax, 25.0)
     dist = draw(st.one_of(S.log_uniform(1.0, 1e5), S.log_uniform(1e3, 1e5), st.sampled_from([1.0, 100.0, 1e5, 54972.271])))
     brg = draw(st.one_of(S.floats(0.0, 360.0), st.sampled_from([0.0, 90.0, 180.0, 270.0, 45.0, 306.52])))
     ell = draw(ell_strategy if ell_strategy is not None else st.sampled_from(["grs80", "grs80", "grs80", "wgs84", "ans", "intl24"]))
     adj = draw(st.integers(0, 9)) < 4
+    if draw(st.integers(0, 14)) == 0:
+        # a line across the antimeridian: first point in zone 60 (1) just short of 180 deg, second point beyond it, given in zone 1 (60)
+        zone = draw(st.sampled_from([1, 60]))
+        sgn = 1.0 if zone == 60 else -1.0
+        dlon = sgn * (3.0 - draw(S.log_uniform(1e-4, 0.5)))
+        brg = (90.0 if zone == 60 else 270.0) + draw(S.floats(-60.0, 60.0))
+        dist = draw(S.log_uniform(2e3, 1e5))
+        adj = True
     on_eq = draw(st.integers(0, 11)) == 0
     if on_eq:
         lat = math.copysign(draw(S.floats(0.06, 0.85)), lat)      # first point within 100 km of the equator
-    return {"zone": zone, "lat": lat, "dlon": dlon, "dist": dist, "brg": brg, "ell": ell, "adj": adj, "on_equator": on_eq}
+    return {"zone": zone, "lat": lat, "dlon": dlon, "dist": dist, "brg": brg, "ell": ell, "adj": adj, "on_equator": on_eq,
+            "hspell": draw(st.sampled_from(["lower", "lower", "Cap", "Cap", "UPPER", "default"])),
+            "bkind": draw(st.sampled_from(["float", "float", "float", "dms", "ddm", "hpa", "deca", "gona"]))}
 
 
 def _nt(case):
@@ -209,15 +248,24 @@ def _classes(case):
         out.append("high-lat")
     if case.get("on_equator"):
         out.append("second-point-on-equator")
+    out.append("hemisphere:" + case.get("hspell", "lower"))
+    out.append("bearing:" + case.get("bkind", "float"))
+    if abs(case["dlon"]) > 3.5:
+        out.append("beyond-zone-width")
+    if case["adj"] and ((case["zone"] == 60 and case["dlon"] > 2.0 and 0 < case["brg"] % 360 < 180) or
+                        (case["zone"] == 1 and case["dlon"] < -2.0 and 180 < case["brg"] % 360 < 360)):
+        out.append("towards-antimeridian (zones 60 <-> 1)")
     return out
 
 
-GROUPS = [["zone"], ["lat", "dlon", "on_equator"], ["dist", "brg"], ["ell"], ["adj"]]
+GROUPS = [["zone"], ["lat", "dlon", "on_equator"], ["dist", "brg"], ["ell", "hspell"], ["adj"], ["bkind"]]
 
 
 def _ends_on_equator(case):
     """Matcher of the open finding 'vincdir_utm towards a point exactly on the equator' (see known_findings.json)."""
-    return any(c.get("on_equator") for c in (case["seq"] if "seq" in case else [case]))
+    if "seq" in case:       # (a whole recorded sequence, e.g. a corpus entry)
+        return any(c.get("on_equator") for c in case["seq"])
+    return bool(case.get("on_equator"))
 
 
 SUBCHECKS = [
